@@ -561,11 +561,22 @@ def tabulate():
         chrom = d.chromosome.tolist()[0]
         probe.append([{"a": 0, "b": 1}.get(chrom, -1), int(d.position[0]), len(d.name.tolist()[0]), int(d.mapq[0]),
                       len(d.cigar_op.tolist()[0]), int(d.flag[0]), len(d.sequence.tolist()[0]), len(d.quality.tolist()[0])])
-    return cig_letters, seq_letters, consumes, old_chrom, old_cig, probe
+    # the EOF block the writer appends: last 28 bytes of a written file
+    import bionumpy as bnp
+    d = _read_raw(two, encode_record(base))
+    out = _path("geneof")
+    try:
+        with bnp.open(out, "w") as f:
+            f.write(d)
+        eof = list(open(out, "rb").read()[-28:])
+    finally:
+        if os.path.exists(out):
+            os.remove(out)
+    return cig_letters, seq_letters, consumes, old_chrom, old_cig, probe, eof
 
 
 def regenerate():
-    cig_letters, seq_letters, consumes, old_chrom, old_cig, probe = tabulate()
+    cig_letters, seq_letters, consumes, old_chrom, old_cig, probe, eof = tabulate()
     b = lambda x: "true" if x else "false"
     out = ["import BnpVerif.Model.C16",
            "/-! GENERATED on every run by harness/props/c16.py from the package imported from /repo (behavioural tabulation",
@@ -577,6 +588,10 @@ def regenerate():
            f"def seqLetters : List Nat := {seq_letters}",
            "/-- does a single op of this code advance the reference? (codes 0..8) -/",
            f"def consumes : List Bool := [{', '.join(b(x) for x in consumes)}]",
+           "/-- the op codes that advance the reference (positions of `true` above): what `count_reference_length` compares with -/",
+           f"def consumingCodes : List Nat := {[i for i, x in enumerate(consumes) if x]}",
+           "/-- last 28 bytes of a file written by `bnp.open(f, 'w')` -/",
+           f"def eofMarker : List Nat := {eof}",
            "/-- does refID = -1 select the LAST reference name (shipped rule)? -/",
            f"def oldChrom : Bool := {b(old_chrom)}",
            "/-- does `n_cigar_op * 4` wrap at 2^16 (shipped rule)? -/",
